@@ -20,7 +20,7 @@ from ..interp import Interp, Hooks
 from ..galg import (GraphHooks, Evaluator, evaluate_set, deep_snapshot,
                     all_graphs, all_subsets, NotEvaluable, GraphError, CG,
                     g_subgraph, g_reversed, g_reach, _freeze)
-from ..report import Finding, RuleResult, floor
+from ..report import Finding, RuleResult, floor, Attempts
 
 PROP = 'C13'
 
@@ -341,7 +341,21 @@ def rule_g12(prog, adj):
         'clone': ([], lambda g, x: g),
         'get_reachable_set_from': ([X], None),
     }
+    deferred = []
     for name, (args, spec) in sorted(ops.items()):
+        try:
+            _g12_one(prog, dg, adj, G, X, name, args, spec, r1, r2)
+        except Inconclusive as e:
+            deferred.append(e)
+    floor('R-G-1', 'operations', len(r1.instances), 4)
+    if deferred:
+        deferred[0].partial = (r1, r2)
+        raise deferred[0]
+    return r1, r2
+
+
+def _g12_one(prog, dg, adj, G, X, name, args, spec, r1, r2):
+    if True:
         f = prog.method(dg, name)
         if f is None:
             raise AnalysisError('DiGraph.%s not found' % name)
@@ -383,12 +397,12 @@ def rule_g12(prog, adj):
             else:
                 r1.ok()
         if spec is None:
-            continue
-        if len(rets) != 1:
-            raise Inconclusive('R-G-2', '%d returning paths in %s' % (
-                len(rets), name), f.where())
-        p, v = rets[0]
-        snap = deep_snapshot(I, v, p)
+            return
+        # one summary per returning path, selected by its path condition
+        snaps = [([(deep_snapshot(I, c, p), pol) for (c, pol) in p.pc],
+                  deep_snapshot(I, v, p)) for (p, v) in rets]
+        snap = snaps[0][1] if len(snaps) == 1 else \
+            Tup([t for (_, t) in snaps])
         bad = None
         nm = 0
         try:
@@ -402,7 +416,15 @@ def rule_g12(prog, adj):
                         env[X] = x
                         want = spec(g, x)
                         try:
-                            got = Evaluator(env).ev(snap)
+                            ev = Evaluator(env)
+                            live = [t for (pc, t) in snaps
+                                    if all((not ev.is_marker(c)) and
+                                           bool(ev.ev(c)) == pol
+                                           for (c, pol) in pc)]
+                            if len(live) != 1:
+                                raise NotEvaluable(
+                                    '%d path conditions hold' % len(live))
+                            got = ev.ev(live[0])
                         except GraphError as e:
                             got = 'raises: %s' % e
                         if got != want and bad is None:
@@ -423,8 +445,6 @@ def rule_g12(prog, adj):
                 extra={'summary': repr(snap)[:800]}))
         else:
             r2.ok()
-    floor('R-G-1', 'operations', len(r1.instances), 4)
-    return r1, r2
 
 
 def _aliases(I, v, path, roots, top=False, items_of=()):
@@ -585,6 +605,24 @@ def rule_g3(prog, adj):
     else:
         fail('exhaustion', 'the loop condition is not the emptiness of the '
              'worklist')
+    # (7) the scan of the successors of a node taken from the worklist is
+    # not cut short
+    cut = []
+    for lf in getattr(I, 'loop_frames', []):
+        it = lf.iterable
+        if isinstance(it, App) and it.op == 'item' and \
+                it.args[0] == App('attr', G, Const(adj)) and lf.breaks:
+            cut.append(lf)
+    ok7 = not cut
+    r.inst(condition='every successor of a node taken from the worklist is '
+           'examined (no break out of the successor scan)', holds=ok7)
+    if ok7:
+        r.ok()
+    else:
+        fail('scan-cut-short', 'the scan of the successors of a node taken '
+             'from the worklist is left with `break` (under %s): the node is '
+             'not examined again, its remaining successors are never added' %
+             ([repr(c)[:60] for (c, pol) in cut[0].breaks[0]],))
     # (4) everything added to the result is also pushed on the worklist
     pushed = [q for q in hW.parts if q.gens]
     ok4 = all(any(w.val == q.val and w.gens == q.gens and
@@ -669,10 +707,12 @@ def rule_g1_scc(prog, r1):
 
 def run(prog, tier, seed):
     adj = adjacency_field(prog)
-    r0 = rule_g0(prog, adj)
-    r1, r2 = rule_g12(prog, adj)
-    rule_g1_scc(prog, r1)
-    r3 = rule_g3(prog, adj)
+    T = Attempts()
+    r0 = T(rule_g0, prog, adj)
+    r1, r2 = T(rule_g12, prog, adj, _n=2)
+    if r1 is not None:
+        T(rule_g1_scc, prog, r1)
+    r3 = T(rule_g3, prog, adj)
     expl = ('DiGraph is analysed at the level of its adjacency dictionary '
             '(field discovered from nodes()). R-G-0: accessors, constructor '
             '(unrolled symbolic instances with |V|,|E| <= 2) and mutators '
@@ -690,4 +730,5 @@ def run(prog, tier, seed):
                    'worklist conditions are necessary and, together, '
                    'sufficient for "X plus everything reachable"; they are '
                    'recognised on the interpreter\'s loop summary']
-    return [r0, r1, r2, r3], expl, assumptions, {'adjacency_field': adj}
+    return T.results(r0, r1, r2, r3), expl, assumptions, \
+        T.extra({'adjacency_field': adj})
